@@ -60,6 +60,9 @@ INJ = {
     "err_null": ("error", L(None)),
     "err_map": ("error", ("map", [(L("k"), L(1))])),
     "undef": V("undefined_thing"),
+    # assignments to a name that was never defined
+    "assign_undef": ("assign", "undefined_thing", L(1)),
+    "opassign_undef": ("opassign", "undefined_thing", "+", L(1)),
     "div0": ("bin", "/", L(1), L(0)),
     "callraise": ("call", V("boom"), []),
     "err_obj": ("error", V("eo")),
@@ -83,7 +86,8 @@ INJ = {
     "break": ("break",), "continue": ("continue",),
 }
 INJ2 = ["err_a", "err_1", "return", "break", "err_list"]
-INJ1Q = ["err_a", "err_1f", "err_null", "err_obj", "undef", "callraise",
+INJ1Q = ["err_a", "err_1f", "err_null", "err_obj", "undef", "assign_undef",
+         "callraise",
          "hostfail",
          "div0f", "req_err", "return",
          "break", "continue"]
@@ -92,7 +96,7 @@ INJ1Q = ["err_a", "err_1f", "err_null", "err_obj", "undef", "callraise",
 # depth-2 chains take every injection kind except the extra spellings of a
 # runtime error (those run on every depth-1 chain)
 INJ_CORE = [k for k in INJ if k not in ("div0ff", "mod0", "idx", "conv",
-                                        "req_err") and
+                                        "req_err", "opassign_undef") and
             not k.startswith("comp_")]
 
 CONTROL = ("return", "break", "continue")
